@@ -22,6 +22,7 @@ import (
 
 	"github.com/RoaringBitmap/roaring/v2"
 	"github.com/blevesearch/bleve/v2/size"
+	"github.com/blevesearch/bleve/v2/util/simhook"
 	index "github.com/blevesearch/bleve_index_api"
 	segment "github.com/blevesearch/scorch_segment_api/v2"
 )
@@ -334,6 +335,10 @@ func (c *cachedDocs) Size() int {
 }
 
 func (c *cachedDocs) updateSizeLOCKED() {
+	if simhook.Enabled {
+		c.simUpdateSizeLOCKED()
+		return
+	}
 	sizeInBytes := 0
 	for k, v := range c.cache { // cachedFieldDocs
 		sizeInBytes += len(k)
